@@ -67,6 +67,9 @@ var commonAssumptions = []string{
 const realVsStub = "real: client, frame, segment, message, primitive, datatype, compression, crc packages (instrumented copy of the working tree), Go channels/mutexes/contexts/timers; stub: TCP (sim/net.go), clock (synctest), OS scheduler (seeded baton), logging (zerolog disabled)"
 
 var cfgs = map[string]*propCfg{
+	"C07": {Profile: "client", QuickCases: 480, ThoroughCases: 20000, QuickSecs: 120, ThoroughSecs: 2400, Level: "fault_enumeration",
+		Rule: "direct family: a segment encoded by the real codec (no compressor / LZ4, several payload classes, both flag values) is altered inside the checksums' guaranteed range and handed to the real DecodeSegment; enumerated sub-spaces are listed under enumerated_subspaces (quick: every header+CRC24 pattern of weight 1..4 over 48 and 64 bits, weights 5..7 sampled; thorough: every pattern of weight 1..7 for 3 seeded header values per header size; all single flips of payload+CRC32 for payloads up to 4 KiB, all pairs for tiny payloads, sampled pairs and bursts of 1..32 bits at every offset otherwise). live family: a seeded v5 session between real client and server over the simulated network is run fault-free and then re-run with one segment of one direction corrupted in transit (1..7 header bits, 1-2 payload bits, or a burst). evaluations = simulated runs + direct alterations evaluated; distinct_nontrivial = distinct event-log fingerprints of live runs in which the corruption fired + enumerated (hence pairwise distinct) direct alterations whose control decode succeeded",
+		Assumptions: []string{"CRC parameters of the independent checker (refwire) follow Cassandra's Crc.java; alterations outside the guaranteed detection range are never injected"}},
 	"C10": {Profile: "client", QuickCases: 2400, ThoroughCases: 150000, QuickSecs: 100, ThoroughSecs: 1500, Level: "exploration",
 		Rule: "case = one seeded fault-free session on a real client connection (version, compression, limits, link all drawn): 1-8 concurrent senders x 1-5 tagged requests; the peer holds requests back and answers in a drawn permutation with drawn gaps, multi-page (DSE continuous paging) responses of 1..MaxPending pages, interleaved events and responses for stream ids that are not in flight; consumers read at a drawn pace. Oracle over the recorded history: every response sent is received exactly once, by the request with its tag, pages in order, request completed on the last page; events exactly once on the event channel and per handler. distinct = distinct event-log fingerprints; non-trivial = at least two requests accepted and at least one switch between tasks inside repository code"},
 	"C09": {Profile: "client", QuickCases: 6400, ThoroughCases: 400000, QuickSecs: 100, ThoroughSecs: 1500, Level: "exploration",
@@ -531,9 +534,10 @@ func writeEvidence(prop, tier string, seed int64, cfg *propCfg, agg *workerOut, 
 	if len(samples) == 0 {
 		samples = []interface{}{"no sample captured"}
 	}
+	direct := agg.Counters["direct_header_evaluations"] + agg.Counters["direct_payload_evaluations"]
 	cov := map[string]interface{}{
-		"evaluations":         agg.Runs,
-		"distinct_nontrivial": distinct,
+		"evaluations":         agg.Runs + direct,
+		"distinct_nontrivial": distinct + agg.Counters["direct_enumerated_distinct"],
 		"rule":                cfg.Rule,
 		"samples":             samples,
 		"cases":               agg.Cases,
